@@ -84,6 +84,9 @@ type ExecDbl struct {
 
 	// Latency is slept (virtual time inside a synctest bubble) inside ExecuteTxs.
 	Latency time.Duration
+	// GetTxsLatency stalls GetTxs (an execution client that is slow to answer); like a real client
+	// it gives up when the context it was called with ends.
+	GetTxsLatency time.Duration
 
 	dead func() bool
 }
@@ -131,6 +134,13 @@ func (e *ExecDbl) InitChain(ctx context.Context, genesisTime time.Time, initialH
 func (e *ExecDbl) GetTxs(ctx context.Context) ([][]byte, error) {
 	if e.dead != nil && e.dead() {
 		return nil, ErrDead
+	}
+	if e.GetTxsLatency > 0 {
+		select {
+		case <-ctx.Done():
+			return nil, ctx.Err()
+		case <-time.After(e.GetTxsLatency):
+		}
 	}
 	e.mu.Lock()
 	defer e.mu.Unlock()
